@@ -1,5 +1,6 @@
 import BddVerif.Drive.Util
 import BddVerif.Model.Relation
+import BddVerif.Model.Count
 /-!
 Driver for C06: replays each observed case through the model of `Model/Relation.lean` and evaluates the
 property's own predicate on the implementation's output, by brute force on truth tables:
@@ -61,11 +62,15 @@ def overrideIx (n : Nat) (lits : List (Nat × Bool)) (i : Nat) : Nat :=
 
 def firstFail (xs : List (Option String)) : Option String := xs.findSome? id
 
+/-- the literals that count: for every mentioned variable its LAST literal -/
+def effLits (lits : List (Nat × Bool)) : List (Nat × Bool) :=
+  lits.reverse.foldl (fun acc l => if acc.any (·.1 == l.1) then acc else l :: acc) []
+
 def agreesV (n : Nat) (lits : List (Nat × Bool)) (v : Array Bool) : Bool :=
-  (List.range n).all fun k => match lastLit lits k with | some b => v.getD k false == b | none => true
+  (effLits lits).all fun l => l.1 ≥ n || v.getD l.1 false == l.2
 
 def overrideV (n : Nat) (lits : List (Nat × Bool)) (v : Array Bool) : Array Bool :=
-  (List.range n).foldl (fun w k => match lastLit lits k with | some b => setV w k b | none => w) v
+  (effLits lits).foldl (fun w l => if l.1 < n then setV w l.1 l.2 else w) v
 
 /-- all re-assignments of the listed variables of `v` -/
 def reassign (vars : List Nat) (v : Array Bool) : List (Array Bool) :=
@@ -73,74 +78,170 @@ def reassign (vars : List Nat) (v : Array Bool) : List (Array Bool) :=
 
 def canonClause (res : Arr) : Option String := if isCanon res then none else some "not-canonical"
 
+/-! #### wide operands: compression to the relevant variables
+
+A variable that occurs in no decision node of the operand, none of the result, and is not mentioned by the
+operation is free in both functions, so every clause of the property is decided by the valuations of the
+RELEVANT variables (support of the operand ∪ support of the observed result ∪ mentioned variables): if there
+are at most `maxRel` of them the predicate is evaluated exhaustively on their 2^m valuations (all other
+variables `false`), whatever `num_vars` is. -/
+
+def maxRel : Nat := 12
+
+/-- marks of the variables `< n` that occur in a decision node -/
+def markSupport (n : Nat) (X : Arr) (m : Array Bool) : Array Bool :=
+  (List.range (X.size - 2)).foldl (fun m i => let v := (X[i + 2]?.getD default).var; if v < n then m.setIfInBounds v true else m) m
+
+def relevant (n : Nat) (A res : Arr) (mention : List Nat) : Array Nat :=
+  let m := markSupport n res (markSupport n A (Array.replicate n false))
+  let m := mention.foldl (fun m x => m.setIfInBounds x true) m
+  (Array.range n).filter fun x => m.getD x false
+
+def posIn (R : Array Nat) (x : Nat) : Option Nat := R.findIdx? (· == x)
+
+/-- truth table over the relevant variables `R` (position k of `R` plays the role of variable k) -/
+def ttC (X : Arr) (R : Array Nat) : Array Bool :=
+  let m := R.size
+  (Array.range (2 ^ m)).map fun i => evalArr X fun x => match posIn R x with | some k => bitOf m i k | none => false
+
+/-- `(m, table of the result, table of the operand, variable ↦ position)`: the full tables for narrow operands,
+    the compressed ones for wide operands with few relevant variables, `none` otherwise (then: sampling) -/
+def tables (n : Nat) (res A : Arr) (mention : List Nat) : Option (Nat × Array Bool × Array Bool × (Nat → Option Nat)) :=
+  if n ≤ maxTT then some (n, ttOf res n, ttOf A n, fun x => if x < n then some x else none)
+  else
+    let R := relevant n A res mention
+    if R.size ≤ maxRel then some (R.size, ttC res R, ttC A R, posIn R) else none
+
+def mapLits (pos : Nat → Option Nat) (lits : List (Nat × Bool)) : List (Nat × Bool) :=
+  lits.filterMap fun l => (pos l.1).map fun k => (k, l.2)
+
+/-! #### sampled valuations (operands with many relevant variables) -/
+
+/-- 64-bit mixer (SplitMix64 finaliser) -/
+def mix64 (z : UInt64) : UInt64 :=
+  let z := (z ^^^ (z >>> 30)) * 0xBF58476D1CE4E5B9
+  let z := (z ^^^ (z >>> 27)) * 0x94D049BB133111EB
+  z ^^^ (z >>> 31)
+
+/-- pseudo-random valuation number `k`; beyond 60 variables every block of 64 variables gets its own word -/
+def sampleValW (n k : Nat) : Array Bool :=
+  if n ≤ 40 then sampleVal n k else
+  let words : Array UInt64 := (Array.range (n / 64 + 1)).map fun b =>
+    mix64 (UInt64.ofNat (k + 1) * 0x9E3779B97F4A7C15 + UInt64.ofNat (b + 1) * 0xD1B54A32D192ED03)
+  (Array.range n).map fun j => ((words.getD (j / 64) 0) >>> UInt64.ofNat (j % 64)) &&& 1 == 1
+
+/-- up to `cap` paths from pointer `p` to the terminal 1, as literal lists; `hiFirst` = branch order -/
+def pathsGo (X : Arr) (hiFirst : Bool) : Nat → Nat → List (Nat × Bool) → List (List (Nat × Bool)) × Nat → List (List (Nat × Bool)) × Nat
+  | 0, _, _, acc => acc
+  | fuel + 1, p, lits, (out, cap) =>
+    if cap = 0 then (out, cap) else
+    if p = 0 then (out, cap) else if p = 1 then (lits :: out, cap - 1) else
+    let nd := nodeAt X p
+    if hiFirst then
+      pathsGo X hiFirst fuel nd.low ((nd.var, false) :: lits) (pathsGo X hiFirst fuel nd.high ((nd.var, true) :: lits) (out, cap))
+    else
+      pathsGo X hiFirst fuel nd.high ((nd.var, true) :: lits) (pathsGo X hiFirst fuel nd.low ((nd.var, false) :: lits) (out, cap))
+
+/-- valuations on satisfying paths of `X` (the other variables pseudo-random): they reach the rare members of
+    sets like "one long cube or …" that random valuations never hit -/
+def pathVals (n : Nat) (X : Arr) : List (Array Bool) :=
+  let fuel := numVars X + 2
+  let ps := (pathsGo X true fuel (root X) [] ([], 24)).1 ++ (pathsGo X false fuel (root X) [] ([], 24)).1
+  (ps.zipIdx).map fun (lits, k) => lits.foldl (fun v l => setV v l.1 l.2) (sampleValW n (1000003 + k))
+
+def sampleVals (n : Nat) (A res : Arr) : List (Array Bool) :=
+  let m := max 32 (min samples (300000 / (n + 1)))
+  pathVals n A ++ pathVals n res ++ (List.range m).map (sampleValW n)
+
+/-! #### the clauses -/
+
 def checkSelect (n : Nat) (res A : Arr) (lits : List (Nat × Bool)) : Option String :=
-  if n > maxTT then
+  match tables n res A ((lits.map (·.1)).filter (· < n)) with
+  | some (m, tr, ta, pos) =>
+    let ls := mapLits pos lits
+    if (List.range (2 ^ m)).all fun i => tr[i]! == (ta[i]! && agreesWith m ls i) then none else some "select-filter"
+  | none =>
     -- sampled: at the sample itself and at the sample forced to agree with the literals
-    if (List.range samples).all fun k =>
-        let v := sampleVal n k; let w := overrideV n lits v
+    if (sampleVals n A res).all fun v =>
+        let w := overrideV n lits v
         evalArr res (asVal v) == (evalArr A (asVal v) && agreesV n lits v) &&
         evalArr res (asVal w) == evalArr A (asVal w) then none else some "select-filter(sampled)"
-  else
-  let tr := ttOf res n; let ta := ttOf A n
-  if (List.range (2 ^ n)).all fun i => tr[i]! == (ta[i]! && agreesWith n lits i) then none else some "select-filter"
 
 def checkRestrict (n : Nat) (res A : Arr) (lits : List (Nat × Bool)) : Option String :=
-  if n > maxTT then
-    if (List.range samples).all fun k =>
-        let v := sampleVal n k
+  match tables n res A ((lits.map (·.1)).filter (· < n)) with
+  | some (m, tr, ta, pos) =>
+    let ls := mapLits pos lits
+    if (List.range (2 ^ m)).all fun i => tr[i]! == ta[overrideIx m ls i]! then none else some "restrict-override"
+  | none =>
+    if (sampleVals n A res).all fun v =>
         evalArr res (asVal v) == evalArr A (asVal (overrideV n lits v)) then none else some "restrict-override(sampled)"
-  else
-  let tr := ttOf res n; let ta := ttOf A n
-  if (List.range (2 ^ n)).all fun i => tr[i]! == ta[overrideIx n lits i]! then none else some "restrict-override"
 
 /-- class representative: the listed variables cleared -/
 def classKey (n : Nat) (vars : List Nat) (i : Nat) : Nat := vars.foldl (fun j k => if k < n then setBit n j k false else j) i
 
+/-- exact count: every non-empty class contributes exactly one valuation, and `∃ vars. S` contains each non-empty
+    class 2^|vars| times: `|result| · 2^|vars| = |∃ vars. S|` (distinct variables; `exactCard` and the model of
+    `var_exists` are the proved ones) -/
+def pickCount (n : Nat) (res A : Arr) (vars : List Nat) : Option String :=
+  let vs := (vars.filter (· < n)).eraseDups
+  if A.size > 4096 && vs.length > 2 then none else
+  let E := vs.foldl (fun E x => Rel.varExists E x) A
+  if exactCard res * 2 ^ vs.length == exactCard E then none else some "pick-count"
+
 def checkPick (n : Nat) (res A : Arr) (vars : List Nat) : Option String :=
-  if n > maxTT then
-    -- sampled classes: all re-assignments of the picked variables of every sample
-    (List.range samples).findSome? fun k =>
-      let cls := reassign (vars.filter (· < n)) (sampleVal n k)
-      let inA := cls.filter fun w => evalArr A (asVal w)
-      let inR := cls.filter fun w => evalArr res (asVal w)
-      if !(inR.all fun w => evalArr A (asVal w)) then some "pick-subset(sampled)"
-      else if (if inA.isEmpty then inR.length == 0 else inR.length == 1) then none
-      else some "pick-exactly-one(sampled)"
-  else
-  let tr := ttOf res n; let ta := ttOf A n
-  let idx := List.range (2 ^ n)
-  if !(idx.all fun i => !tr[i]! || ta[i]!) then some "pick-subset" else
-  let cntA := idx.foldl (fun (c : Array Nat) i => if ta[i]! then c.modify (classKey n vars i) (· + 1) else c) (Array.replicate (2 ^ n) 0)
-  let cntR := idx.foldl (fun (c : Array Nat) i => if tr[i]! then c.modify (classKey n vars i) (· + 1) else c) (Array.replicate (2 ^ n) 0)
-  if idx.all fun k => if cntA[k]! > 0 then cntR[k]! == 1 else cntR[k]! == 0 then none else some "pick-exactly-one"
+  firstFail [
+    (match tables n res A (vars.filter (· < n)) with
+    | some (m, tr, ta, pos) =>
+      let vs := vars.filterMap pos
+      let idx := List.range (2 ^ m)
+      if !(idx.all fun i => !tr[i]! || ta[i]!) then some "pick-subset" else
+      let cntA := idx.foldl (fun (c : Array Nat) i => if ta[i]! then c.modify (classKey m vs i) (· + 1) else c) (Array.replicate (2 ^ m) 0)
+      let cntR := idx.foldl (fun (c : Array Nat) i => if tr[i]! then c.modify (classKey m vs i) (· + 1) else c) (Array.replicate (2 ^ m) 0)
+      if idx.all fun k => if cntA[k]! > 0 then cntR[k]! == 1 else cntR[k]! == 0 then none else some "pick-exactly-one"
+    | none =>
+      -- sampled classes: all re-assignments of the picked variables of every sample (if there are at most 2^12)
+      let vs := (vars.filter (· < n)).eraseDups
+      -- (the path samples come first; the number of samples is bounded so that samples × 2^|vars| stays small)
+      ((sampleVals n A res).take (max 100 (65536 >>> vs.length))).findSome? fun v =>
+        if vs.length > maxRel then
+          if evalArr res (asVal v) && !evalArr A (asVal v) then some "pick-subset(sampled)" else none
+        else
+        let cls := reassign vs v
+        let inA := cls.filter fun w => evalArr A (asVal w)
+        let inR := cls.filter fun w => evalArr res (asVal w)
+        if !(inR.all fun w => evalArr A (asVal w)) then some "pick-subset(sampled)"
+        else if (if inA.isEmpty then inR.length == 0 else inR.length == 1) then none
+        else some "pick-exactly-one(sampled)"),
+    pickCount n res A vars]
 
 /-- `var_pick` with preferred value `pref` -/
 def checkVarPick (n : Nat) (res A : Arr) (x : Nat) (pref : Bool) : Option String :=
-  if n > maxTT then
-    if (List.range samples).all fun k =>
+  match tables n res A [x] with
+  | some (m, tr, ta, pos) =>
+    let x := (pos x).getD 0
+    let ok := (List.range (2 ^ m)).all fun i =>
+      let j := setBit m i x (!bitOf m i x)
+      tr[i]! == (ta[i]! && (bitOf m i x == pref || !ta[j]!))
+    if ok then none else some "var-pick-preferred"
+  | none =>
+    if (sampleVals n A res).all fun v =>
         [false, true].all fun b =>
-          let w := setV (sampleVal n k) x b; let tw := setV w x (!b)
+          let w := setV v x b; let tw := setV w x (!b)
           evalArr res (asVal w) == (evalArr A (asVal w) && (b == pref || !evalArr A (asVal tw)))
       then none else some "var-pick-preferred(sampled)"
-  else
-  let tr := ttOf res n; let ta := ttOf A n
-  let ok := (List.range (2 ^ n)).all fun i =>
-    let j := setBit n i x (!bitOf n i x)
-    tr[i]! == (ta[i]! && (bitOf n i x == pref || !ta[j]!))
-  if ok then none else some "var-pick-preferred"
 
 def checkQuant (n : Nat) (res A : Arr) (x : Nat) (isEx : Bool) : Option String :=
-  if n > maxTT then
-    if (List.range samples).all fun k =>
-        let v := sampleVal n k
+  match tables n res A [x] with
+  | some (m, tr, ta, pos) =>
+    let x := (pos x).getD 0
+    let ok := (List.range (2 ^ m)).all fun i =>
+      let a := ta[setBit m i x false]!; let b := ta[setBit m i x true]!
+      tr[i]! == (if isEx then a || b else a && b)
+    if ok then none else some "projection"
+  | none =>
+    if (sampleVals n A res).all fun v =>
         let a := evalArr A (asVal (setV v x false)); let b := evalArr A (asVal (setV v x true))
         evalArr res (asVal v) == (if isEx then a || b else a && b) then none else some "projection(sampled)"
-  else
-  let tr := ttOf res n; let ta := ttOf A n
-  let ok := (List.range (2 ^ n)).all fun i =>
-    let a := ta[setBit n i x false]!; let b := ta[setBit n i x true]!
-    tr[i]! == (if isEx then a || b else a && b)
-  if ok then none else some "projection"
 
 def showO : Outcome Arr → String
   | .ok a => showArr a
@@ -161,7 +262,9 @@ def verdict (model res : String) (A : Arr) (inScope : Bool) (pred : Arr → Opti
     | none => some ("outcome:" ++ res)
   { agree := model == res, model, fail, nontrivial := nontrivial obs A, tags }
 
-def szTag (A : Arr) : String := if A.size > 65536 then s!"n{numVars A},big" else s!"n{numVars A}"
+def szTag (A : Arr) : String :=
+  let n := numVars A
+  if A.size > 65536 then s!"n{n},big" else if n ≥ 54 then s!"wide{Nat.log2 n}" else s!"n{n}"
 
 def handle (key : String) (ins obs : List String) : Verdict :=
   match key, ins, obs with
